@@ -101,7 +101,7 @@ def make_system(rng, n_dom=4, n_cplx=4, n_strands=2, n_macro=2, n_rxn=3, sizes=(
             seq = "".join(rng.choice(IUPAC) for _ in range(rng.randrange(1, 12)))
             S.domains[n] = (len(seq), seq)
         else:
-            S.domains[n] = (rng.choice([rng.randrange(1, 30), 5, 15]), None)
+            S.domains[n] = (rng.choice([rng.randrange(1, 30), 5, 15] * 4 + [0, 99999999999999999999999]), None)
         S.order.append(("domain", n))
     dnames = list(S.domains)
     anydom = lambda: rng.choice(dnames) + ("*" if rng.random() < 0.3 else "")
@@ -312,7 +312,11 @@ def render_stmt(S, item, rng=None, layout=False):
         return f"sequence{sp()}{key}{sp()}{eq()}{sp()}{seq}{tail}"
     if kind == "strand":
         kw = rng.choice(["sup-sequence", "strand"]) if (layout and rng) else "strand"
-        return f"{kw}{sp()}{key}{sp()}{eq()}{sp()}" + sp().join(S.strands[key])
+        txt = f"{kw}{sp()}{key}{sp()}{eq()}{sp()}" + sp().join(S.strands[key])
+        if layout and rng and rng.random() < 0.3:
+            # the optional explicit length of a strand (the sum of its domains' lengths)
+            txt += f"{sp()}{eq()}{sp()}{sum(S.domains[d.rstrip('*')][0] for d in S.strands[key])}"
+        return txt
     if kind == "complex":
         sq, st, conc, notation = S.complexes[key]
         hint = S.hints.get(key, {})
